@@ -270,7 +270,31 @@ class _Sched:
 def run_threads(case):
   import fedjax
   from fedjax.core import for_each_client as fec
-  customs = [fec.ForEachClientDebugBackend(), fec.ForEachClientJitBackend()]
+  bound = []     # backend objects whose __call__ ran (custom backends only)
+
+  class RecDebug(fec.ForEachClientDebugBackend):
+    def __call__(self, *a):
+      bound.append(self)
+      return super().__call__(*a)
+
+  class RecJit(fec.ForEachClientJitBackend):
+    def __call__(self, *a):
+      bound.append(self)
+      return super().__call__(*a)
+
+  customs = [RecDebug(), RecJit()]
+
+  def bind_kind():
+    """Which backend does fedjax.for_each_client(...) bind in this thread, right now?"""
+    del bound[:]
+    f = fedjax.for_each_client(lambda sh, cin: cin, lambda s, b: (s, ()), with_step_result=True)
+    if bound:
+      return kind(bound[-1])
+    qn = getattr(f, '__qualname__', '')
+    for name, code in (('ForEachClientJitBackend', 0), ('ForEachClientDebugBackend', 2), ('ForEachClientPmapBackend', 3)):
+      if qn.startswith(name + '.'):
+        return code
+    return -1
 
   def backend_arg(b):
     if b is None or isinstance(b, str):
@@ -307,6 +331,8 @@ def run_threads(case):
           pass
       elif k == 'get':
         reads.append([sched.pos, tid, kind(fedjax.get_for_each_client_backend())])
+      elif k == 'bind':
+        reads.append([sched.pos, tid, bind_kind()])
       elif k == 'enterbad':
         try:
           with fedjax.for_each_client_backend('no-such-backend'):
